@@ -263,6 +263,22 @@ def step (ss : Sess) (line : String) : Sess × String :=
         else (ss, "unsupported")
       | none => (ss, "bad-op")
     | _, _ => (ss, "bad-op")
+  -- identity: ident <lsb|msb> <name> v:w v:w ...
+  | "ident" :: o :: name :: ws =>
+    let fields : Option (List (Nat × Nat)) := ws.mapM fun w => match w.splitOn ":" with
+      | [a, b] => do let a ← a.toNat?; let b ← b.toNat?; pure (a, b)
+      | _ => none
+    match fields with
+    | some fs =>
+      let ord := if o == "msb" then Bits.Order.msb else Bits.Order.lsb
+      let i := match Identity.intOf ord fs with | some v => toString v | none => "ValueError"
+      let h := match Identity.hexOf ord fs with | some v => String.ofList v | none => "ValueError"
+      (ss, s!"str={String.ofList (Identity.strOf name fs)} int={i} hex={h}")
+    | none => (ss, "bad-op")
+  | "eqt" :: tn :: td :: ws =>
+    match tn.toNat?, td.toNat?, (splitBar ws).mapM parseInts with
+    | some tn, some td, some [a, b] => (ss, toString (Identity.eqTimings ⟨tn, td⟩ a b))
+    | _, _, _ => (ss, "bad-op")
   -- pronto
   | "pronto_enc" :: freq :: kind :: ws =>
     match freq.toInt? with
